@@ -448,3 +448,16 @@ PROPS["C14"] = {
     "assumptions": ["crossbeam-skiplist iterates keys in ascending byte order and lower_bound is correct"],
     "outside": "concurrency, index agreement, skiplist internals",
 }
+
+PROPS["C18"] = {
+    "engine_name": "E2-mir-smt",
+    "technique": "path-sensitive symbolic execution of MIR (z3 decides path feasibility): lock-order relation over every explored path, exit conditions of the coordinator and force_flush loops, scan progress",
+    "level_text": "Reduced claim – necessary conditions for termination, not termination: (i) over every feasible MIR path of the functions that nest locks (process_write_batch, failed_batch_outcome, cleanup_failed_allocations, process_deletions, flush_pending_deletions, flush_all, flush_worker_shards, force_flush, load_value_from_disk, prepare_deferred_record_data, release_allocations; callee lock sets from a transitive summary) the relation 'B acquired while A held' is ACYCLIC; the allocator lock is never held when the device lock is taken (the failure paths nest device -> allocator only) and the retirement flush mutex is outermost; (ii) the periodic coordinator returns only on shutdown; (iii) force_flush returns Ok only from a round with no leftover work and an Ok retirement flush; (iv, thorough) every iteration of the recovery scan advances `sector`.",
+    "level_note": E2NOTE + ". Lock acquisition inside std/scc/crossbeam, channel blocking, condition of 'no reader held forever', fairness and actual termination are NOT decided; guard lifetimes are taken from MIR drop terminators.",
+    "functions": [WB + "::process_write_batch", WB + "::process_deletions", WB + "::flush_pending_deletions", WB + "::force_flush", WB + "::start_workers", PERSIST + "::flush_all"],
+    "smt": "c18",
+    "bounds": "every MIR path of the listed functions with loops unrolled once (~3900 paths)",
+    "stubs": [],
+    "assumptions": ["a lock is released where MIR drops its guard", "locks taken inside non-crate callees are invisible"],
+    "outside": "channels, thread joins, TTL sweeper stop/self-join, reader starvation, real schedules",
+}
